@@ -18,8 +18,14 @@ DATA['l'] = [DATA['o'], DATA['o']]
 def gen_body(rng, depth, parts):
     lines = []
     for _ in range(rng.randint(1, 5)):
-        k = rng.choice(['text', 'text', 'value', 'value', 'if', 'nested', 'mixed', 'blank', 'inl'])
-        if k == 'text':
+        k = rng.choice(['text', 'text', 'value', 'value', 'if', 'nested', 'mixed', 'blank', 'inl', 'indtag'])
+        if k == 'indtag':
+            # a line of the partial with blanks of its own in front of a tag that writes (also right after a tag line)
+            lines.append(rng.choice(['', '{{#if t}}\n', '{{! c }}\n']) + rng.choice(['  ', '\t', ' ']) +
+                         rng.choice(['{{one}}', '{{{ml}}}', '{{uni}} t', '{{#if t}}in{{/if}}', '{{lookup this "one"}}']) + '\n')
+            if lines[-1].startswith('{{#if'):
+                lines.append('{{/if}}\n')
+        elif k == 'text':
             lines.append(rng.choice(['alpha', 'beta gamma', 'x', 'café', 'naïve é', '€']) + '\n')
         elif k == 'blank':
             lines.append('\n')
@@ -87,7 +93,9 @@ def gen_cases(rng, tier, scale):
         cases.append({'line': f'{grp}p ' + ' ; '.join(ops), 'kind': 'alone', 'grp': grp, 'tpl': body, 'tags': ['alone']})
     # the indented call as the first thing the template writes, p beginning with a construct that writes through another
     # frame (a nested partial, a block, an expression) — on every run, through every entry point
-    FIRST = [{'p': '{{> q1}}\nx\n', 'q1': 'after\n'}, {'p': '{{> q1}}\nx\n', 'q1': '{{#each l0}}x{{/each}}{{e}}after\n'},
+    FIRST = [{'p': '  {{one}}\nx\n'}, {'p': '{{#if t}}\n  {{one}}\n{{/if}}\nx\n'}, {'p': '{{#each l}}\n\t{{one}}!\n{{/each}}\n'}, {'p': '{{! c }}\n  {{{ml}}}\n'},
+             {'p': '{{> q1}}\n', 'q1': '{{#if t}}\n   {{one}} {{e}}\n{{else}}\n{{/if}}\n'}, {'p': ' {{#if t}}a{{/if}}\n  {{#with o}}{{one}}{{/with}}\n'},
+             {'p': '{{> q1}}\nx\n', 'q1': 'after\n'}, {'p': '{{> q1}}\nx\n', 'q1': '{{#each l0}}x{{/each}}{{e}}after\n'},
              {'p': '{{#if t}}\na\nb\n{{/if}}\nx\n'}, {'p': '{{one}} tail\nx\n'}, {'p': '{{> q1}}', 'q1': '{{> q2}}\ny\n', 'q2': 'deep\n'},
              {'p': '{{#each l}}\n{{> q1}}\n{{/each}}\n', 'q1': 'it\n'}, {'p': 'plain\n{{> q1}}\n', 'q1': '{{ml}}\n'}]
     for k, parts in enumerate(FIRST):
